@@ -24,6 +24,8 @@ mod c07 {
     pub mod infer;
     pub mod cycles;
     pub mod modules;
+    pub mod shadow;
+    pub mod registered;
 }
 
 use c07::ast::*;
@@ -231,10 +233,20 @@ fn prog_case(rt: &Runtime<NoCtx>, drv: &mut Driver, seed: u64, index: u64, rep: 
         }
         return;
     };
-    let msrc = m.prog.roto();
+    let mut msrc = m.prog.roto();
+    // a share of the mutants: one DECLARED type spelled as a built-in type the script does not mention
+    // (what a declared type is called does not change what is well-typed; D's verdict is on the numbered form)
+    let mut shadow = Value::Null;
+    if index % 4 == 3 {
+        if let Some((s, name, ty)) = c07::shadow::shadow_generated(&msrc, index / 4) {
+            rep.hist("shadowed-mutants", name);
+            shadow = json!({"type": ty, "spelled": name});
+            msrc = s;
+        }
+    }
     let input = json!({
         "seed": seed, "index": index, "kind": m.kind, "detail": m.detail, "rule": rule,
-        "src": msrc, "sexp": m.prog.sexp(), "original": src,
+        "src": msrc, "sexp": m.prog.sexp(), "original": src, "shadow": shadow,
     });
     judge_mutant(rt, &msrc, m.kind, rule, input, rep);
 }
@@ -1186,7 +1198,12 @@ fn unify_case(drv: &mut Driver, seed: u64, index: u64, rep: &mut Report) {
                 let fs: Vec<String> = (0..nf).map(|f| format!("({f} {})", ty(p, vars, ndefs, depth + 1))).collect();
                 format!("(rec {})", fs.join(" "))
             }
-            15 if depth < 2 => format!("(fn ({}) {})", ty(p, vars, ndefs, depth + 1), ty(p, vars, ndefs, depth + 1)),
+            15 if depth < 2 => {
+                // function types with 0..3 parameters: the `Function` arm of unify_inner zips the parameter lists
+                let np = p.below(4);
+                let ps: Vec<String> = (0..np).map(|_| ty(p, vars, ndefs, depth + 1)).collect();
+                format!("(fn ({}) {})", ps.join(" "), ty(p, vars, ndefs, depth + 1))
+            }
             _ => format!("(n {})", [2u64, 6, 8, 10][p.below(4) as usize]),
         }
     }
@@ -1325,6 +1342,8 @@ fn worker(args: &[String]) {
             "tcyc-gen" => c07::cycles::tcyc_case(&rt, &mut drv, seed, i, true, &mut rep),
             "mods" => c07::modules::mods_case(&rt, &mut drv, seed, i, false, &mut rep),
             "mods-gen" => c07::modules::mods_case(&rt, &mut drv, seed, i, true, &mut rep),
+            "shadow" => c07::shadow::shadow_case(&rt, &mut drv, i, &mut rep),
+            "tostr" => c07::registered::tostr_case(&mut drv, i, &mut rep),
             "infer-gen" => c07::infer::infer_case(&rt, &mut drv, seed, i + c07::infer::REPS.len() as u64, &mut rep),
             _ => {}
         }
@@ -1496,6 +1515,13 @@ fn main() {
             rep.notes.push(format!("corpus: {} witnesses replayed first", corpus_files().len()));
             // the inference model against the real checker: class representatives first
             run_phase("infer", seed, c07::infer::REPS.len() as u64, 64, 1, &mut rep);
+            // own types spelled like a built-in one: every representative that declares a type x every built-in name it does not mention
+            let shadow_reps = c07::shadow::table().len() as u64;
+            run_phase("shadow", seed, shadow_reps, 400, jobs, &mut rep);
+            rep.notes.push(format!("own types under the name of a built-in type: {shadow_reps} representatives (representative of phase infer that declares T0 x built-in type name it does not mention)"));
+            // f-string parts / `to_string` calls on types the runtime registers (one type per shape of `to_string` signature)
+            run_phase("tostr", seed, c07::registered::total(), 64, 1, &mut rep);
+            rep.notes.push(format!("registered types: {} scripts ({} shapes of `to_string` signature x {} positions of an f-string part + {} explicit calls)", c07::registered::total(), c07::registered::TYPES.len(), c07::registered::POSITIONS.len(), c07::registered::CALLS.len()));
             // packages of several modules: what is in scope where (arena x site x kind of use x path prefix x way of use)
             let mods_reps = c07::modules::rep_count();
             run_phase("mods", seed, mods_reps, 800, jobs, &mut rep);
@@ -1605,6 +1631,11 @@ fn main() {
 
 /// `worker one <json> 0 0`: replay a recorded failing input
 fn replay_one(input: &Value, rep: &mut Report) {
+    if input["tostr"].is_string() {
+        // a script over the runtime with registered types (phase tostr)
+        c07::registered::replay(input, rep);
+        return;
+    }
     let rt = Runtime::new();
     if input["pkg"].is_array() {
         // a package of several modules (phases mods / mods-gen)
